@@ -84,6 +84,19 @@ int main() {
     if (router->existsOrthogonalSegmentOverlap()) { printf("bridge scene, creation order %d%d%d: two connectors run collinear after nudging although the channel is 60 wide and the nudging distance is 4\n", P[perm][0], P[perm][1], P[perm][2]); bad++; }
     delete router;
   }
+  // a fixed straight connector and a movable one hugging an obstacle at the same coordinate: separated in BOTH creation orders
+  for (int order = 0; order < 2; ++order) for (int nd = 4; nd <= 10; nd += 6) {
+    Router *router = new Router(OrthogonalRouting);
+    router->setRoutingParameter(segmentPenalty, 50); router->setRoutingParameter(idealNudgingDistance, nd);
+    Rectangle ob(Point(150, 70), Point(250, 130)); new ShapeRef(router, ob, 1);
+    for (int k = 0; k < 2; ++k) {
+      if ((k == 0) == (order == 0)) new ConnRef(router, ConnEnd(Point(120, 130)), ConnEnd(Point(280, 130)), 10 + k);    // A: straight, fixed end segment on y = 130
+      else new ConnRef(router, ConnEnd(Point(100, 120)), ConnEnd(Point(300, 120)), 10 + k);                              // B: dips under the obstacle along y = 130
+    }
+    router->processTransaction();
+    if (router->existsOrthogonalSegmentOverlap(true)) { printf("fixed connector and obstacle-hugging connector at one coordinate (creation order %d, nudging distance %d): still collinear after nudging\n", order, nd); bad++; }
+    delete router;
+  }
   // checkpoints stay on their routes: a connector with a checkpoint in the interior of a segment next to an S (or, mirrored, Z) bend that shares
   // its corridor with a second connector
   for (int mirror = 0; mirror < 2; ++mirror) {
@@ -234,6 +247,25 @@ def jobs(tier):
                   bound="at most 2 checkpoints on each adjoining segment and on the segment itself (loops unwound 8 times with unwinding assertions); all doubles that are numbers",
                   domain="every position of the segment, its neighbours and up to 2+2 checkpoints, both dimensions, with and without checkpoints on the segment itself",
                   expect=[r'h_limits\.assertion']))
+    # ---- NudgingShiftSegment::fixedOrder: the tie-break of CmpLineOrder.  Its out-parameter is shared by the two calls of the comparator
+    #      (`lhs->fixedOrder(oneIsFixed); rhs->fixedOrder(oneIsFixed);`), so a call may only ever SET it -- "one of the two is fixed" must not depend on the argument order
+    fo = slice_func(OC, r'^\s*int fixedOrder\(bool& isFixed\) const', "NudgingShiftSegment::fixedOrder")
+    fo_cxx = ("#include <verif_base.h>\n" + 'extern "C" { double w_nudgeDistance(void *seg); void *w_lowPoint(void *seg); }\n' + pt_pre + "namespace Avoid {\n" + idx_text + "\n"
+              "// the data members fixedOrder reads, with their real types (ShiftSegment / NudgingShiftSegment); nudgeDistance() and lowPoint() forward to the harness\n"
+              "class NudgingShiftSegment { public: size_t dimension; double minSpaceLimit; double maxSpaceLimit; bool fixed;\n"
+              "    double nudgeDistance(void) const { return w_nudgeDistance((void *)this); }\n    Point& lowPoint(void) const { Point *verif_p = (Point *)w_lowPoint((void *)this); return *verif_p; }   // (goto-cc rejects the const-reference form)\n" +
+              fo.text + "\n};\n}\n"
+              "static Avoid::NudgingShiftSegment verif_seg; static double verif_pos[2]; static double verif_nd;\n"
+              'extern "C" double w_nudgeDistance(void *seg) { return verif_nd; }\n'
+              'extern "C" void *malloc(size_t);\n'
+              'extern "C" void *w_lowPoint(void *seg) { Avoid::Point *p = (Avoid::Point *)malloc(sizeof(Avoid::Point)); __CPROVER_assume(p != 0); p->x = verif_pos[0]; p->y = verif_pos[1]; return p; }\n'
+              'extern "C" int w_fixedOrder(unsigned long dim, double pos, double minLim, double maxLim, int fixed, double nd, int *isFixed) {\n'
+              "  verif_seg.dimension = dim; verif_seg.minSpaceLimit = minLim; verif_seg.maxSpaceLimit = maxLim; verif_seg.fixed = fixed != 0; verif_nd = nd; verif_pos[dim] = pos;\n"
+              "  bool f = *isFixed != 0; int r = verif_seg.fixedOrder(f); *isFixed = f ? 1 : 0; return r; }\n")
+    js.append(Job("fixedOrder_only_sets_its_flag", "U", spec, "h_fixedOrder", cxx=fo_cxx, defines=["JOB_fixedOrder"], slices=[fo, idx1], replay=replay_c10,
+                  flags=["--sat-solver", "cadical"], backend="sat:cadical",
+                  domain="every segment state (all doubles that are numbers), both dimensions, the out-parameter set or not on entry",
+                  expect=[r'h_fixedOrder\.assertion']))
     return js
 
 
@@ -250,6 +282,8 @@ ASSUMPTIONS = [
     "the region handed to the solver is the reference segment's whole component under 'overlaps'",
     "channel_limits_respect_checkpoints_and_bends is a BOUNDED stand-in (up to 2 checkpoints per list; coordinates within +-CHANNEL_MAX): the limits imposed by checkpoints on "
     "the adjoining segments and by an S/Z bend's span all hold together for the limits handed to NudgingShiftSegment",
+    "fixedOrder_only_sets_its_flag: NudgingShiftSegment::fixedOrder with nudgeDistance() and lowPoint() behind the harness: its out-parameter comes out as (value on entry) OR "
+    "(effectively fixed), which is what lets CmpLineOrder share one flag between its two calls; CmpLineOrder itself and linesort are not under contract",
     "NOT decided (residue): which segments are built fixed, ordering of shared paths (PtOrderMap), channel computation (min/maxSpaceLimit), the constraints generated inside a region, the resulting separation, checkpoints staying on routes",
 ]
 EXPLANATION = ("Write-back kernel of nudging under contract: a fixed segment writes nothing (empty frame); the written position is the solver position clamped into "
